@@ -1,6 +1,6 @@
 """C19 -- Everything the client sends is a well-formed RFB client message."""
 from __future__ import annotations
-import io, struct
+import io, os, struct
 from impl import *  # noqa
 from twisted.internet import task
 
@@ -206,7 +206,57 @@ def run_impl(ops, w, h, with_screen=False):
         vclient.reactor = old
 
 
+def cli_paste_leg(ctx):
+    """the glue in front of paste: `pastefile FILE` commands of a command line, compiled by the real build_command_list and run as the
+    real callback chain on a connected client: each ClientCutText carries the text of ITS command, Latin-1, behind the exact length"""
+    import tempfile, shutil
+    from unittest import mock
+    from twisted.internet.defer import Deferred
+    from vncdotool import command
+    r = ctx.rng
+    tmp = tempfile.mkdtemp(prefix="verif-c19-")
+    try:
+        for si in range(ctx.n(40, 300)):
+            texts, args = [], []
+            for j in range(r.randint(1, 4)):
+                t = "".join(chr(r.choice([r.randrange(32, 127), r.randrange(160, 256)])) for _ in range(r.choice([0, 1, 3, 20, 300])))
+                path = os.path.join(tmp, "p%d_%d.txt" % (si, j))
+                with open(path, "w", encoding="utf-8", newline="") as f:
+                    f.write(t)
+                t = open(path).read()       # the text of the file as a text-mode read in this locale yields it
+                args += ["pastefile", path]
+                texts.append(t)
+                if r.random() < .5:
+                    args += ["key", "a"]
+                    texts.append(None)
+            fac = mock.Mock()
+            fac.deferred = Deferred()
+            try:
+                command.build_command_list(fac, list(args))
+            except Exception as e:  # noqa
+                ctx.violate("cli-paste-rejected", {"input": {"command_line": args, "file_contents": [t for t in texts if t is not None]}, "observed": "build_command_list raised %s" % exc_class(e)})
+                continue
+            c, trace = connect(w=8, h=8)
+            n0 = len(trace)
+            errs = []
+            fac.deferred.addErrback(lambda f: errs.append(f.type.__name__))
+            fac.deferred.callback(c)
+            parsed = pyparse(b"".join(writes(trace[n0:])))
+            want = []
+            for t in texts:
+                want += [("ke", 1, 0x61), ("ke", 0, 0x61)] if t is None else [("cut", t.encode("latin-1"))]
+            ctx.count("cli_paste_sessions")
+            ctx.case(None, key=("cli-paste", tuple(args)))
+            if errs or parsed != want:
+                ctx.violate("cli-paste", {"input": {"command_line": args, "texts": [t for t in texts if t is not None]},
+                                          "observed": ("the chain failed with %s" % errs) if errs else "messages sent %r, the commands stand for %r" % (parsed and parsed[:6], want[:6]),
+                                          "how": "real build_command_list on a real Deferred, fired with a connected VNCDoToolClient on an in-memory transport; writes parsed with an RFC 6143 7.5 parser"})
+    finally:
+        shutil.rmtree(tmp, ignore_errors=True)
+
+
 def run(ctx):
+    cli_paste_leg(ctx)
     r = ctx.rng
     names = list(vclient.KEYMAP)
     hist = [[("k", "press", "ctrl-c", ["ctrl", "c"]), ("p", "m", 3, 4), ("p", "c", 1), ("paste", "h\xe9"), ("r", True, False), ("se", [0, -223])],
